@@ -33,13 +33,14 @@ STAGES = {
     # windows / buffers / groups (C18, C19)
     "window_count": 0, "buffer_count": 0, "window_time": 0, "buffer_time": 0, "window_time_or_count": 0,
     "buffer_time_or_count": 0, "window_boundaries": 1, "buffer_boundaries": 1, "window_when": 1, "buffer_when": 1,
-    "window_toggle": 1, "group_by": 0, "group_by_until": 1, "partition_merge": 0, "group_join_count": 1, "join": 1,
+    "window_toggle": 1, "group_by": 0, "group_by_until": 1, "group_by_until_self": 0, "window_count_skipwin": 0, "window_boundaries_skipwin": 1, "partition_merge": 0, "group_join_count": 1, "join": 1,
     # multicast (C24), resources (C40), schedulers
     "share": 0, "publish_ref_count": 0, "replay_ref_count": 0, "publish_value_ref_count": 0, "publish_mapper": 0,
     "using": 0, "finally_action": 0, "do_action": 0, "do_finally": 0, "do_on_dispose": 0,
     "observe_on": 0, "subscribe_on": 0, "expand_take": 1, "exclusive": 1,
 }
 STAGE_NAMES = sorted(STAGES)
+TERMINATORS = ["take", "first", "take_while", "take_until", "element_at_or_default", "amb", "first_or_default", "some", "contains", "timeout_fail"]
 
 
 def gen_source(rng, hot, allow_never=True):
@@ -67,7 +68,20 @@ def gen_case(rng, max_stages=3, names=None):
     for _ in range(rng.randrange(1, max_stages + 1)):
         s = rng.choice(names)
         stages.append([s, rng.randrange(0, 4), rng.randrange(1, nsrc)])
+    if rng.random() < 0.3:   # early termination patterns (take/first/amb/take_until/…) at the end of the pipeline
+        stages.append([rng.choice(TERMINATORS), rng.randrange(0, 4), rng.randrange(1, nsrc)])
     return {"sources": [gen_source(rng, rng.random() < 0.5) for _ in range(nsrc)], "stages": stages}
+
+
+def gen_systematic(rng, per_stage=3):
+    """every stage kind, alone and followed by an early terminator (so rare stage/terminator pairs are always exercised)"""
+    for name in STAGE_NAMES:
+        for k in range(per_stage):
+            c = gen_case(rng, 1, [name])
+            c["stages"] = c["stages"][:1]
+            if k:
+                c["stages"].append([rng.choice(TERMINATORS[:4]), rng.randrange(1, 4), rng.randrange(1, 4)])
+            yield c
 
 
 class Recorder:
@@ -237,6 +251,12 @@ def build(case, sched, callback_log=None):
         elif name == "window_toggle": o = o.pipe(ops.window_toggle(other, cb(idx, lambda x: rx.timer(15))), ops.merge_all())
         elif name == "group_by": o = o.pipe(ops.group_by(cb(idx, lambda x: x == 1)), ops.merge_all())
         elif name == "group_by_until": o = o.pipe(ops.group_by_until(cb(idx, lambda x: x == 1), None, cb(idx, lambda g: other)), ops.merge_all())
+        elif name == "group_by_until_self":   # duration derived from the group itself
+            o = o.pipe(ops.group_by_until(cb(idx, lambda x: x == 1), None, cb(idx, lambda g, n=n: g.pipe(ops.skip(n)))), ops.merge_all())
+        elif name == "window_count_skipwin":   # some windows are handed out but never subscribed
+            o = o.pipe(ops.window_with_count(n + 1), ops.skip(1), ops.merge_all())
+        elif name == "window_boundaries_skipwin":
+            o = o.pipe(ops.window(other), ops.filter_indexed(lambda w, i: i % 2 == 1), ops.merge_all())
         elif name == "partition_merge":
             a, b = o.pipe(ops.partition(cb(idx, lambda x: x == 1)))
             o = rx.merge(a, b)
@@ -303,6 +323,7 @@ def run(case, dispose_at=None, dispose_early=False, horizon=2000, subscribe_at=2
             break
         except Exception as e:  # exceptions escaping into the scheduler are C09's business; keep running
             escaped.append(err_name(e))
+            sched._is_enabled = False   # the scheduler stays "enabled" after an escaped exception; reset so the run continues
     out = {
         "log": rec.log,
         "subs": [[[int(s.subscribe), (None if s.unsubscribe >= 2 ** 62 else int(s.unsubscribe))] for s in src.subscriptions] for src in b.sources],
